@@ -111,7 +111,7 @@ def deref(
     def cases(h: PtrHarness, rng: random.Random, tier: str) -> Iterable[Case]:
         w, sh = h.w, h.dbit
         targets = [(rn, i) for rn, r in h.regions.items() for i in range(r.ncells - span + 1)]
-        walk = euler_pairs(len(targets), rng) * (1 if tier != 'thorough' else 4)
+        walk = [x for _ in range(1 if tier != 'thorough' else 3) for x in euler_pairs(len(targets), rng)]
         vs = h.vars
         cyc = {nm: cycle_values(rng, _size(v), len(walk)) for nm, v in vs.items() if nm not in ('p', 'idx') + tuple(external)}
         kconst = h.m.mem.get(h.A('kconst') // w, 0) if const is not None else 0
@@ -146,12 +146,16 @@ def deref(
             info = dict(target=f'{rn}[{i}]', cell_before=f'{regs[rn][i][0]:#x};{regs[rn][i][1]:#x}', **{k: hex(x) for k, x in vals.items()})
             yield Case(vals, want, regs, want_regs, want_words=ww, info=info)
 
+    if ns == 'hex' and not raw and cellbits == 8 and observe is None and not external and const is None and '\n' not in call:
+        PARTS[name + (f'[{variant}]' if variant else '')] = (call, effect, operands, span, nth, doc)
     return Program(
         name, call, vars_, cases, doc, decl=lambda w: _extra_init(ns)(w) + (f'kconst: ({const})&((1<<w)-1);0\n' if const is not None else '') + _buffers(ns)(w), regions=_regions, startup=_startup(ns),
         widths=widths or ((64, 32) if ns == 'hex' else (64, 32, 16)), variant=variant, external=external, max_ops=max_ops,
         group=f'{ns} pointer macros on the pointed cell (all ordered pairs of {K_NEAR}+{K_FAR} cells of a near and a far buffer x cycled values)',
     )
 
+
+PARTS: Dict[str, tuple] = {}  # the one-line hex dereferencing macros, for the random sequences (mixed_programs)
 
 H1, H2 = Var('hex', 1), Var('hex', 2)
 H1i, H2i = Var('hex', 1, 'in'), Var('hex', 2, 'in')
@@ -378,7 +382,7 @@ def jump_programs() -> List[Program]:
         marks = [f'jt+{i}' for i in range(K_NEAR)] + [f'fjt+{i}' for i in range(K_FAR)]
 
         def cases(h: PtrHarness, rng: random.Random, tier: str, marks: List[str] = marks) -> Iterable[Case]:
-            walk = euler_pairs(len(marks), rng) * (1 if tier != 'thorough' else 3)
+            walk = [x for _ in range(1 if tier != 'thorough' else 3) for x in euler_pairs(len(marks), rng)]
             for ti in walk:
                 yield Case({'p': h.A(marks[ti])}, trace=(marks[ti],), info=dict(target=marks[ti], p=hex(h.A(marks[ti]))))
 
@@ -410,19 +414,26 @@ def arith_programs() -> List[Program]:
     out: List[Program] = []
     grp = 'pointer arithmetic moves by whole cells (corner addresses: 0, top of the address space, carry chains; random aligned and unaligned)'
 
-    def mk(name: str, call: str, doc: str, delta_cells: int, ns: str = 'hex', variant: str = '') -> None:
+    def mk(name: str, call: str, doc: str, delta_cells: int, ns: str = 'hex', variant: str = '', candidate: str = '') -> None:
         def cases(h: PtrHarness, rng: random.Random, tier: str) -> Iterable[Case]:
+            prev = False
             for p in _pointer_values(h, rng, 150 if tier != 'thorough' else 1200):
-                yield Case({'p': p}, {'p': (p + delta_cells * 2 * h.w) % (1 << h.w)}, info=dict(p=hex(p)))
+                wraps = not (0 <= p + delta_cells * 2 * h.w < (1 << h.w))
+                # stepping over the end of the address space: bit.inc leaves its private carry cell set (it is re-initialised
+                # on entry by `.one carry`); changes confined to the code of the macro instance are tolerated for these operands
+                # (and for the execution that follows, which clears the cell again) only
+                yield Case({'p': p}, {'p': (p + delta_cells * 2 * h.w) % (1 << h.w)}, info=dict(p=hex(p)), soft_frame=(ns == 'bit' and (wraps or prev)))
+                prev = wraps
 
         out.append(Program(name, call, lambda w: {'p': Var('hex', w // 4) if ns == 'hex' else Var('bit', w)}, cases, doc, decl=_extra_init(ns), startup=_startup(ns),
-                           widths=(64, 32) if ns == 'hex' else (64, 32, 16), variant=variant, max_ops=100_000, group=grp))
+                           widths=(64, 32) if ns == 'hex' else (64, 32, 16), variant=variant, max_ops=100_000, group=grp, candidate=candidate))
 
     mk('hex.ptr_inc', 'hex.ptr_inc p', 'ptr[:w/4] += 2w', 1)
     mk('hex.ptr_dec', 'hex.ptr_dec p', 'ptr[:w/4] -= 2w', -1)
     for c in (0, 1, 2, 7, 0x35, 0x1234):
         mk('hex.ptr_add', f'hex.ptr_add p, {c}', 'ptr[:w/4] += value * 2w    (advance ptr by value)', c, variant=f'value={c}')
-        mk('hex.ptr_sub', f'hex.ptr_sub p, {c}', 'ptr[:w/4] -= value * 2w    (retreat ptr by value)', -c, variant=f'value={c}')
+        mk('hex.ptr_sub', f'hex.ptr_sub p, {c}', 'ptr[:w/4] -= value * 2w    (retreat ptr by value)', -c, variant=f'value={c}',
+           candidate='' if c else 'hex.ptr_sub ptr, 0 does not assemble (hex.sub_constant with constant 0: "negative shift count"), hex.ptr_add ptr, 0 does')
     mk('bit.ptr_inc', 'bit.ptr_inc p', '(ptr += 2w: "inc" of the property statement; the macro documents only its complexity)', 1, ns='bit')
     mk('bit.ptr_dec', 'bit.ptr_dec p', 'ptr[:n] -= 2w', -1, ns='bit')
 
@@ -500,7 +511,7 @@ def stack_programs() -> List[Program]:
         def cases(h: PtrHarness, rng: random.Random, tier: str) -> Iterable[Case]:
             w, sh = h.w, h.dbit
             depths = list(range(lo, hi + 1))
-            walk = [depths[i] for i in euler_pairs(len(depths), rng)] * (1 if tier != 'thorough' else 4)
+            walk = [depths[i] for _ in range(1 if tier != 'thorough' else 3) for i in euler_pairs(len(depths), rng)]
             cyc = {nm: cycle_values(rng, _size(v), len(walk)) for nm, v in h.vars.items() if nm != 'hex.pointers.sp'}
             base = h.A('hex.pointers.stack')
             for t, d in enumerate(walk):
@@ -841,19 +852,20 @@ SEQ_STACK = 80
 def sequence_programs(tier: str, seed: int) -> List[Program]:
     """random programs; the family (number, size) depends on the tier, the content on the seed"""
     out: List[Program] = []
-    n_seq, n_call = (10, 14) if tier != 'thorough' else (40, 60)
+    n_seq, n_call = (8, 12) if tier != 'thorough' else (32, 48)
     for idx in range(n_seq + n_call):
         with_calls = idx >= n_seq
         rng = random.Random(f'C08-seq-{seed}-{idx}')
-        ncall = rng.randrange(2, 7) if with_calls else 0
-        g = _Gen(rng, ncall, budget=rng.randrange(10, 22) if not with_calls else rng.randrange(14, 30), p_call=0.35 if with_calls else 0.0)
+        ncall = rng.randrange(2, 6) if with_calls else 0
+        lo, hi = (7, 13) if tier != 'thorough' else (10, 24)
+        g = _Gen(rng, ncall, budget=rng.randrange(lo, hi), p_call=0.4 if with_calls else 0.0)
         # bodies from the last callable backwards so that the budget is shared and every callable exists
         main = g.seq(0, -1, 6 if with_calls else 12)
         if with_calls and not any(it[0] in ('call', 'fcall') for it in main):
             main.append(('call', 0, 0) if g.kinds[0] == 'call' else ('fcall', 0))
-        g.budget = max(g.budget, 4 * ncall)
+        g.budget = max(g.budget, 2 * ncall)
         for k in range(ncall):
-            g.bodies[k] = g.seq(1, k, rng.randrange(1, 5))
+            g.bodies[k] = g.seq(2, k, rng.randrange(1, 4))
         lines = _text(main)
         decl = []
         for k in range(ncall):
@@ -875,7 +887,7 @@ def sequence_programs(tier: str, seed: int) -> List[Program]:
         def cases(h: PtrHarness, rng2: random.Random, tier: str, g: _Gen = g, main: List[tuple] = main) -> Iterable[Case]:
             w = h.w
             sp0 = h.A('hex.pointers.stack')
-            for t in range(8 if tier != 'thorough' else 24):
+            for t in range(6 if tier != 'thorough' else 16):
                 vals = {}
                 for nm, v in h.vars.items():
                     if nm == 'hex.pointers.sp':
@@ -904,7 +916,91 @@ def sequence_programs(tier: str, seed: int) -> List[Program]:
 
 
 def mixed_programs(tier: str, seed: int) -> List[Program]:
-    return []
+    """random sequences of 3-5 dereferencing macros in ONE program, on two shared pointer variables (pa, pb) and
+    the shared buffers: the registers to_flip / to_jump / read_byte are left by one macro in the state the next one
+    starts from, the `_and_inc` macros move the pointer the next macro dereferences, targets may coincide"""
+    import re
+
+    if not PARTS:
+        hex_deref_programs()
+    keys = sorted(PARTS)
+    out: List[Program] = []
+    for idx in range(16 if tier != 'thorough' else 64):
+        rng = random.Random(f'C08-mixed-{seed}-{idx}')
+        parts = [rng.choice(keys) for _ in range(rng.randrange(3, 6))]
+        ptrs = [rng.choice(('pa', 'pb')) for _ in parts]
+        lines = []
+        opvars: Dict[str, Var] = {}
+        for j, (key, pn) in enumerate(zip(parts, ptrs)):
+            call, effect, operands, span, nth, doc = PARTS[key]
+            txt = re.sub(r'\bp\b', pn, call)
+            for nm, v in operands.items():
+                txt = re.sub(rf'\b{nm}\b', f'{nm}{j}', txt)
+                opvars[f'{nm}{j}'] = v
+            lines.append(txt)
+
+        def mkvars(w: int, opvars: Dict[str, Var] = opvars) -> Dict[str, Var]:
+            d = {'pa': Var('hex', w // 4), 'pb': Var('hex', w // 4)}
+            for nm, v in opvars.items():
+                d[nm] = Var(v.kind, v.n if v.n > 0 else w // 4, v.role)
+            return d
+
+        def cases(h: PtrHarness, rng2: random.Random, tier: str, parts: List[str] = parts, ptrs: List[str] = ptrs) -> Iterable[Case]:
+            w, sh = h.w, h.dbit
+            rnames = list(h.regions)
+            done_ = 0
+            tries = 0
+            total = 40 if tier != 'thorough' else 120
+            while done_ < total and tries < total * 50:
+                tries += 1
+                pos = {pn: [rng2.choice(rnames), 0] for pn in ('pa', 'pb')}
+                for pn in pos:
+                    pos[pn][1] = rng2.randrange(h.regions[pos[pn][0]].ncells)
+                regs = {rn: [[0, rng2.randrange(256) << sh] for _ in range(r.ncells)] for rn, r in h.regions.items()}
+                vals: Dict[str, int] = {pn: h.cell(rn, i) for pn, (rn, i) in pos.items()}
+                for nm, v in h.vars.items():
+                    if nm not in vals:
+                        vals[nm] = rng2.randrange(_size(v))
+                want_regs = {k: [list(c) for c in v] for k, v in regs.items()}
+                V = dict(vals)
+                steps = []
+                ok = True
+                for j, (key, pn) in enumerate(zip(parts, ptrs)):
+                    call, effect, operands, span, nth, doc = PARTS[key]
+                    rn, base = pos[pn]
+                    n = h.regions[rn].ncells
+                    i = base
+                    if nth:
+                        i = rng2.randrange(n)
+                        vals[f'idx{j}'] = V[f'idx{j}'] = (i - base) % (1 << w)
+                    if not (0 <= base < n and i + span <= n):
+                        ok = False
+                        break
+                    sub = {nm: V[f'{nm}{j}'] for nm in operands}
+                    st = S(w, want_regs[rn], i, sub)
+                    effect(st)
+                    for nm in operands:
+                        V[f'{nm}{j}'] = st.v[nm]
+                    pos[pn][1] += st.move
+                    steps.append(f'{pn}->{rn}[{i}]')
+                if not ok or any(not (0 <= i <= h.regions[rn].ncells) for rn, i in pos.values()):
+                    continue
+                for pn, (rn, i) in pos.items():
+                    V[pn] = h.cell(rn, 0) + i * 2 * w
+                done_ += 1
+                want = {nm: x for nm, x in V.items() if x != vals[nm]}
+                yield Case(vals, want, regs, want_regs, info=dict(targets=steps, **{k: hex(x) for k, x in vals.items()}))
+
+        out.append(Program('sequence of pointer macros', '\n  '.join(lines), mkvars, cases, 'the composition of the documented effects of: ' + ' ; '.join(parts),
+                           decl=_buffers('hex'), regions=_regions, variant=f'program {idx}', max_ops=600_000,
+                           group='random sequences of 3-5 hex pointer macros on two shared pointers and shared buffers (one assembled program each)'))
+    return out
 
 
-NOT_COVERED: Dict[str, str] = {}
+NOT_COVERED: Dict[str, str] = {
+    'stl.ptr_init / hex.pointers.ptr_init / bit.pointers.ptr_init': 'declarations of the global registers and of the read-byte table (no effect of their own); every program runs on them, '
+    'the setters\' contracts state to_flip{_var} / to_jump{_var}, read_byte_from_inners_ptrs states read_byte',
+    'stl.stack_init / hex.pointers.stack_init': 'declaration; its documented outputs are checked through the stack programs: sp starts at `stack` (the random programs never poke sp), '
+    'capacity n (the single applications push into the n-th cell of a 12-cell stack)',
+    'hex.pointers.advance_by_one_and_flip__ptr_wflip / bit.pointers.advance_by_one_and_flip__ptr_wflip': 'helper of ptr_wflip, only meaningful inside its rep(w) loop; covered through ptr_wflip / ptr_wflip_2nd_word',
+}
